@@ -161,7 +161,13 @@ namespace TAO_PEGTL_NAMESPACE
             std::terminate();
 #endif
          }
-         m_end += m_reader( m_end, ( std::min )( buffer_free_after_end(), ( std::max )( amount - buffer_occupied(), Chunk ) ) );
+         while( m_current.data + amount > m_end ) {
+            const std::size_t r = m_reader( m_end, ( std::min )( buffer_free_after_end(), ( std::max )( amount - buffer_occupied(), Chunk ) ) );
+            if( r == 0 ) {
+               break;  // End of input.
+            }
+            m_end += r;
+         }
       }
 
       template< rewind_mode M >
